@@ -475,6 +475,681 @@ fn ctor_guard(s: &mut Sink, name: &str, l: &Link, t: i64, red: bool) {
     s.case(&req, reply, true);
 }
 
+// ---------------------------------------------------------------------------------------------
+// (iii) structural operations on tangles and cobordisms (`tng.rs`, `cob.rs`, `path.rs`) against the Lean model
+//       `Yuiv/Model/C05Tng.lean`: request kinds tp tn ta tc tv tr ck cc cn co kq kc ks kp ki.
+//       Raw inputs (edge lists as given), canonical outputs (paths up to the Rust `PartialEq` of `TngComp`).
+
+mod structural {
+    use super::*;
+    use yui_kh::kh::internal::v2::cob::{Bottom, Dot};
+    use yui_link::Crossing;
+
+    #[derive(Clone, Debug)]
+    pub struct PSpec { pub closed: bool, pub edges: Vec<usize> }
+    pub type TSpec = Vec<PSpec>;
+    #[derive(Clone, Debug)]
+    pub struct CSpec { pub src: TSpec, pub tgt: TSpec, pub g: usize, pub x: usize, pub y: usize }
+    pub type KSpec = Vec<CSpec>;
+
+    // ----- raw text (requests)
+    fn edges_txt(e: &[usize]) -> String { e.iter().map(|x| x.to_string()).collect::<Vec<_>>().join(".") }
+    pub fn p_raw(p: &PSpec) -> String { format!("{}{}", if p.closed { "C" } else { "A" }, edges_txt(&p.edges)) }
+    pub fn t_raw(t: &TSpec) -> String { if t.is_empty() { "_".into() } else { t.iter().map(p_raw).collect::<Vec<_>>().join(",") } }
+    pub fn c_raw(c: &CSpec) -> String { format!("{}/{}/{}/{}/{}", t_raw(&c.src), t_raw(&c.tgt), c.g, c.x, c.y) }
+    pub fn k_raw(k: &KSpec) -> String { if k.is_empty() { "_".into() } else { k.iter().map(c_raw).collect::<Vec<_>>().join("+") } }
+
+    // ----- building the real objects (may panic: callers guard)
+    pub fn mk_p(p: &PSpec) -> TngComp { if p.closed { TngComp::circ(p.edges.clone()) } else { TngComp::arc(p.edges.clone()) } }
+    pub fn mk_t(t: &TSpec) -> Tng { Tng::new(t.iter().map(mk_p).collect::<Vec<_>>()) }
+    pub fn mk_c(c: &CSpec) -> CobComp { CobComp::new(mk_t(&c.src), mk_t(&c.tgt), c.g, (c.x, c.y)) }
+    pub fn mk_k(k: &KSpec) -> Cob { Cob::new(k.iter().map(mk_c).collect::<Vec<_>>()) }
+
+    // ----- canonical text (replies)
+    fn canon_edges(closed: bool, e: &[usize]) -> Vec<usize> {
+        let rev: Vec<usize> = e.iter().rev().cloned().collect();
+        if closed {
+            let n = e.len();
+            let mut best: Option<Vec<usize>> = None;
+            for s in [e.to_vec(), rev] {
+                for i in 0..n {
+                    let mut v = s[i..].to_vec(); v.extend_from_slice(&s[..i]);
+                    if best.as_ref().map(|b| v < *b).unwrap_or(true) { best = Some(v) }
+                }
+            }
+            best.unwrap_or_default()
+        } else if rev < e.to_vec() { rev } else { e.to_vec() }
+    }
+    pub fn p_txt(p: &TngComp) -> String {
+        format!("{}{}", if p.is_circle() { "C" } else { "A" }, edges_txt(&canon_edges(p.is_circle(), p.path().edges())))
+    }
+    pub fn t_txt(t: &Tng) -> String { if t.is_empty() { "_".into() } else { t.comps().map(p_txt).collect::<Vec<_>>().join(",") } }
+    /// the private `dots` pair, recovered through the public constructor and the derived equality
+    pub fn dots_of(c: &CobComp) -> (usize, usize) {
+        let n = c.ndots();
+        for x in 0..=n {
+            let cand = guard(|| CobComp::new(c.src().clone(), c.tgt().clone(), c.genus(), (x, n - x)));
+            if let Some(cand) = cand { if cand == *c { return (x, n - x) } }
+        }
+        // end points of src and tgt differ (only reachable through convert_edges): fall back on the Debug text
+        let d = format!("{:?}", c);
+        let tail = d.rsplit("dots: (").next().unwrap_or("");
+        let nums: Vec<usize> = tail.split(|ch: char| !ch.is_ascii_digit()).filter(|s| !s.is_empty()).filter_map(|s| s.parse().ok()).collect();
+        if nums.len() >= 2 { (nums[0], nums[1]) } else { (n, 0) }
+    }
+    pub fn c_txt(c: &CobComp) -> String {
+        let (x, y) = dots_of(c);
+        format!("{}/{}/{}/{}/{}", t_txt(c.src()), t_txt(c.tgt()), c.genus(), x, y)
+    }
+    pub fn k_txt(k: &Cob) -> String { if k.is_empty() { "_".into() } else { k.comps().map(c_txt).collect::<Vec<_>>().join("+") } }
+    fn nats_txt(mut v: Vec<usize>) -> String { if v.is_empty() { return "-".into() } v.sort(); edges_txt(&v) }
+    fn or_panic<T>(x: Option<T>, f: impl FnOnce(T) -> String) -> String { match x { Some(v) => f(v), None => "panic".into() } }
+    fn b(x: bool) -> u8 { x as u8 }
+
+    pub fn t_info(t: &Tng) -> String {
+        let lp = t.find_comp(|c| c.is_circle());
+        let rm = match lp {
+            None => "-".to_string(),
+            Some(i) => or_panic(guard(|| { let mut u = t.clone(); let c = u.remove_at(i); (c, u) }), |(c, u)| format!("{}:{}", p_txt(&c), t_txt(&u))),
+        };
+        format!("t={} end={} eu={} loop={} closed={} rm={}", t_txt(t), nats_txt(t.endpts().into_iter().collect()), t.euler_num(),
+            lp.map(|i| i.to_string()).unwrap_or("-".into()), b(t.is_closed()), rm)
+    }
+    pub fn c_info(c: &CobComp) -> String {
+        let flags = format!("{}{}{}{}{}{}", b(c.is_closed()), b(c.is_cyl()), b(c.is_id()), b(c.is_invertible()), b(c.is_zero_cob()), b(c.is_unit_cob()));
+        let inv = or_panic(guard(|| c.inv()), |o| o.map(|i| c_txt(&i)).unwrap_or("-".into()));
+        format!("c={} nb={} eu={} deg={} end={} f={} inv={}", c_txt(c),
+            or_panic(guard(|| c.nbdr_comps()), |n| n.to_string()), or_panic(guard(|| c.euler_num()), |n| n.to_string()),
+            or_panic(guard(|| c.deg()), |n| n.to_string()), nats_txt(c.endpts().into_iter().collect()), flags, inv)
+    }
+    pub fn k_info(k: &Cob) -> String {
+        let inv = or_panic(guard(|| k.inv()), |o| o.map(|i| k_txt(&i)).unwrap_or("-".into()));
+        format!("k={} src={} tgt={} nb={} eu={} deg={} f={}{}{} inv={}", k_txt(k),
+            or_panic(guard(|| k.src()), |t| t_txt(&t)), or_panic(guard(|| k.tgt()), |t| t_txt(&t)),
+            or_panic(guard(|| k.nbdr_comps()), |n| n.to_string()), or_panic(guard(|| k.euler_num()), |n| n.to_string()),
+            or_panic(guard(|| k.deg()), |n| n.to_string()), b(k.is_closed()), b(k.is_invertible()), b(k.is_zero_cob()), inv)
+    }
+
+    // ----- generators: every label is used once per tangle; end points come from a small pool, everything else is fresh
+    pub struct Gen { pub fresh: usize }
+    impl Gen {
+        pub fn new() -> Self { Gen { fresh: 100 } }
+        fn next(&mut self) -> usize { self.fresh += 1; self.fresh }
+        pub fn arc(&mut self, r: &mut Rng, e: usize, f: usize) -> PSpec {
+            let mut edges = vec![e];
+            for _ in 0..r.below(3) { edges.push(self.next()); }
+            edges.push(f);
+            if r.bool() { edges.reverse(); }
+            PSpec { closed: false, edges }
+        }
+        pub fn circ(&mut self, r: &mut Rng) -> PSpec {
+            let n = 1 + r.below(3);
+            PSpec { closed: true, edges: (0..n).map(|_| self.next()).collect() }
+        }
+        /// random perfect matching of the end points + `ncirc` circles, in random order
+        pub fn tangle(&mut self, r: &mut Rng, ends: &[usize], ncirc: usize) -> TSpec {
+            // orientable boundaries: an arc joins an even with an odd end point (surplus end points are paired arbitrarily)
+            let mut ev: Vec<usize> = ends.iter().cloned().filter(|e| e % 2 == 0).collect();
+            let mut od: Vec<usize> = ends.iter().cloned().filter(|e| e % 2 == 1).collect();
+            r.shuffle(&mut ev); r.shuffle(&mut od);
+            let m = ev.len().min(od.len());
+            let mut e: Vec<usize> = vec![];
+            for i in 0..m { e.push(ev[i]); e.push(od[i]); }
+            e.extend_from_slice(&ev[m..]); e.extend_from_slice(&od[m..]);
+            let mut t: TSpec = e.chunks(2).filter(|c| c.len() == 2).map(|c| self.arc(r, c[0], c[1])).collect();
+            for _ in 0..ncirc { t.push(self.circ(r)); }
+            r.shuffle(&mut t);
+            t
+        }
+        pub fn comp(&mut self, r: &mut Rng, ends: &[usize]) -> CSpec {
+            let (cs, ct) = (r.below(3) as usize / 2 + (r.below(4) == 0) as usize, r.below(3) as usize / 2 + (r.below(4) == 0) as usize);
+            let src = self.tangle(r, ends, cs);
+            let tgt = self.tangle(r, ends, ct);
+            let g = if r.chance(1, 3) { 1 + r.below(2) as usize } else { 0 };
+            let (x, y) = if r.chance(1, 2) { (0, 0) } else { (r.below(3) as usize, r.below(2) as usize) };
+            CSpec { src, tgt, g, x, y }
+        }
+        /// a cobordism whose components live over disjoint subsets of `pool`
+        pub fn cob(&mut self, r: &mut Rng, pool: &[usize], ncomp: usize, extra: bool) -> KSpec {
+            let mut ev: Vec<usize> = pool.iter().cloned().filter(|e| e % 2 == 0).collect();
+            let mut od: Vec<usize> = pool.iter().cloned().filter(|e| e % 2 == 1).collect();
+            r.shuffle(&mut ev); r.shuffle(&mut od);
+            let mut k: KSpec = vec![];
+            let mut at = 0;
+            for _ in 0..ncomp {
+                let n = 1 + r.below(2) as usize;
+                if at + n > ev.len().min(od.len()) { break }
+                let mut e: Vec<usize> = ev[at..at + n].to_vec(); e.extend_from_slice(&od[at..at + n]);
+                k.push(self.comp(r, &e));
+                at += n;
+            }
+            if extra {
+                if r.chance(1, 3) { let c = self.circ(r); k.push(CSpec { src: vec![], tgt: vec![c], g: 0, x: r.below(2) as usize, y: 0 }); }
+                if r.chance(1, 3) { let c = self.circ(r); k.push(CSpec { src: vec![c], tgt: vec![], g: 0, x: 0, y: r.below(2) as usize }); }
+                if r.chance(1, 4) { k.push(CSpec { src: vec![], tgt: vec![], g: r.below(3) as usize, x: r.below(2) as usize, y: r.below(2) as usize }); }
+                if r.chance(1, 3) { let (c, d) = (self.circ(r), self.circ(r)); k.push(CSpec { src: vec![c], tgt: vec![d], g: 0, x: 0, y: 0 }); }
+            }
+            r.shuffle(&mut k);
+            k
+        }
+    }
+    fn subset(r: &mut Rng, pool: usize, n: usize) -> Vec<usize> {
+        let mut p: Vec<usize> = (0..pool).collect();
+        r.shuffle(&mut p);
+        p.truncate(n);
+        p
+    }
+    /// `n/2` even and `n/2` odd labels below `pool`
+    fn balanced(r: &mut Rng, pool: usize, n: usize) -> Vec<usize> {
+        let mut ev: Vec<usize> = (0..pool).filter(|e| e % 2 == 0).collect();
+        let mut od: Vec<usize> = (0..pool).filter(|e| e % 2 == 1).collect();
+        r.shuffle(&mut ev); r.shuffle(&mut od);
+        ev.truncate(n / 2); od.truncate(n / 2);
+        ev.extend(od);
+        ev
+    }
+    fn spec_of_t(t: &Tng) -> TSpec { t.comps().map(|c| PSpec { closed: c.is_circle(), edges: c.path().edges().clone() }).collect() }
+    fn spec_of_c(c: &CobComp) -> CSpec { let (x, y) = dots_of(c); CSpec { src: spec_of_t(c.src()), tgt: spec_of_t(c.tgt()), g: c.genus(), x, y } }
+    /// same component, other representative: reversed arc / rotated, reflected circle
+    fn rerep(r: &mut Rng, p: &PSpec) -> PSpec {
+        let mut e = p.edges.clone();
+        if p.closed && !e.is_empty() { let k = r.below(e.len() as u64) as usize; e.rotate_left(k); }
+        if r.bool() { e.reverse(); }
+        PSpec { closed: p.closed, edges: e }
+    }
+
+    // ----- request kinds
+    pub fn tp(s: &mut Sink, p: &PSpec, q: &PSpec, valid: bool) {
+        let req = format!("tp {} {}", p_raw(p), p_raw(q));
+        let reply = match (guard(|| mk_p(p)), guard(|| mk_p(q))) {
+            (Some(a), Some(c)) => {
+                let pq = guard(|| { let mut x = a.clone(); x.connect(c.clone()); x });
+                let qp = guard(|| { let mut x = c.clone(); x.connect(a.clone()); x });
+                let red = { let mut x = a.path().clone(); x.reduce(); format!("{}{}", if x.is_circle() { "C" } else { "A" }, edges_txt(x.edges())) };
+                let cmp = match a.cmp(&c) { std::cmp::Ordering::Less => 0, std::cmp::Ordering::Equal => 1, _ => 2 };
+                if valid {
+                    let inp = format!("TngComp {} , {}", p_raw(p), p_raw(q));
+                    match (&pq, &qp) {
+                        (Some(x), Some(y)) => {
+                            s.oracle(x == y, "TngComp::connect gives the same component (Rust equality) in either argument order", &inp, &format!("{} vs {}", p_txt(x), p_txt(y)));
+                            let (pe, qe) = (a.endpts().unwrap(), c.endpts().unwrap());
+                            let mut sym: Vec<usize> = vec![];
+                            for e in [pe.0, pe.1] { if e != qe.0 && e != qe.1 { sym.push(e) } }
+                            for e in [qe.0, qe.1] { if e != pe.0 && e != pe.1 { sym.push(e) } }
+                            sym.sort();
+                            let mut got: Vec<usize> = x.endpts().map(|(u, v)| vec![u, v]).unwrap_or_default(); got.sort();
+                            s.oracle(got == sym && x.is_circle() == sym.is_empty(), "the end points of connected arcs are the symmetric difference of the end points; the result is a circle exactly when both ends are shared", &inp, &p_txt(x));
+                            s.oracle(x.len() + (pe.0 == qe.0 || pe.0 == qe.1) as usize + (pe.1 == qe.0 || pe.1 == qe.1) as usize == a.len() + c.len(),
+                                "connecting arcs keeps every edge once (length adds up minus the shared end points)", &inp, &p_txt(x));
+                        }
+                        (None, None) => s.oracle(!a.is_connectable(&c), "TngComp::connect succeeds on connectable arcs", &inp, "panic"),
+                        _ => s.oracle(false, "TngComp::connect gives the same component (Rust equality) in either argument order", &inp, "one order panics"),
+                    }
+                }
+                format!("conn={} eq={} cmp={} pq={} qp={} red={}", b(a.is_connectable(&c)), b(a == c), cmp, or_panic(pq, |x| p_txt(&x)), or_panic(qp, |x| p_txt(&x)), red)
+            }
+            _ => "panic".into(),
+        };
+        s.count("struct.tp");
+        s.case(&req, &reply, p.edges.len() + q.edges.len() >= 4);
+    }
+
+    pub fn tn(s: &mut Sink, t: &TSpec) {
+        let reply = or_panic(guard(|| mk_t(t)), |x| t_info(&x));
+        s.count("struct.tn");
+        s.case(&format!("tn {}", t_raw(t)), &reply, t.len() >= 2);
+    }
+    pub fn ta(s: &mut Sink, t: &TSpec, p: &PSpec) {
+        let reply = or_panic(guard(|| { let mut x = mk_t(t); x.append_arc(mk_p(p)); x }), |x| t_info(&x));
+        if reply == "panic" { s.count("struct.ta.panic"); }
+        s.count("struct.ta");
+        s.case(&format!("ta {} {}", t_raw(t), p_raw(p)), &reply, t.len() >= 1);
+    }
+    pub fn tc(s: &mut Sink, t: &TSpec, u: &TSpec, valid: bool) {
+        let req = format!("tc {} {}", t_raw(t), t_raw(u));
+        let reply = match (guard(|| mk_t(t)), guard(|| mk_t(u))) {
+            (Some(a), Some(c)) => {
+                let x = guard(|| a.connected(&c));
+                let y = guard(|| c.connected(&a));
+                let eq = match (&x, &y) { (Some(x), Some(y)) => b(x == y).to_string(), _ => "-".into() };
+                if valid {
+                    let inp = format!("Tng {} , {}", t_raw(t), t_raw(u));
+                    match (&x, &y) {
+                        (Some(x), Some(y)) => {
+                            s.oracle(x == y, "Tng::connect gives the same tangle (Rust equality) in either argument order", &inp, &format!("{} vs {}", t_txt(x), t_txt(y)));
+                            let (ea, ec) = (a.endpts(), c.endpts());
+                            let mut sym: Vec<usize> = ea.symmetric_difference(&ec).cloned().collect(); sym.sort();
+                            let mut got: Vec<usize> = x.endpts().into_iter().collect(); got.sort();
+                            s.oracle(got == sym, "the end points of connected tangles are the symmetric difference of the end points", &inp, &t_txt(x));
+                            let shared = ea.intersection(&ec).count();
+                            let len = |t: &Tng| t.comps().map(|c| c.len()).sum::<usize>();
+                            s.oracle(len(x) + shared == len(&a) + len(&c), "connecting tangles keeps every edge once", &inp, &t_txt(x));
+                        }
+                        _ => s.oracle(false, "Tng::connect of valid tangles does not panic", &inp, "panic"),
+                    }
+                }
+                format!("{} r={} eq={}", or_panic(x, |x| t_info(&x)), or_panic(y, |y| t_txt(&y)), eq)
+            }
+            _ => "panic".into(),
+        };
+        if reply.starts_with("panic") { s.count("struct.tc.panic"); }
+        s.count("struct.tc");
+        s.case(&req, &reply, t.len() + u.len() >= 3);
+    }
+    pub fn tv(s: &mut Sink, t: &TSpec, mode: usize, k: usize) {
+        let reply = or_panic(guard(|| {
+            let x = mk_t(t);
+            match mode { 0 => x.convert_edges(|e| e + k), 1 => x.convert_edges(|e| k - e), _ => x.convert_edges(|e| e / (k + 1)) }
+        }), |x| t_txt(&x));
+        s.count("struct.tv");
+        s.case(&format!("tv {} {} {}", t_raw(t), mode, k), &reply, t.len() >= 2);
+    }
+    pub fn tr(s: &mut Sink, t: &TSpec, i: usize) {
+        let reply = or_panic(guard(|| { let mut x = mk_t(t); let c = x.remove_at(i); (c, x) }), |(c, x)| format!("{}:{}", p_txt(&c), t_txt(&x)));
+        s.count("struct.tr");
+        s.case(&format!("tr {} {}", t_raw(t), i), &reply, t.len() >= 2);
+    }
+    pub fn ck(s: &mut Sink, kind: &str, ps: &[PSpec], g: usize) {
+        let req = if kind == "cls" { format!("ck cls {}", g) } else { format!("ck {} {}", kind, ps.iter().map(p_raw).collect::<Vec<_>>().join(" ")) };
+        let reply = or_panic(guard(|| {
+            let q: Vec<TngComp> = ps.iter().map(mk_p).collect();
+            match kind {
+                "cls" => CobComp::closed(g),
+                "id" => CobComp::id(q[0].clone()),
+                "sdl" => CobComp::sdl((q[0].clone(), q[1].clone()), (q[2].clone(), q[3].clone())),
+                "mrg" => CobComp::merge((q[0].clone(), q[1].clone()), q[2].clone()),
+                "spl" => CobComp::split(q[0].clone(), (q[1].clone(), q[2].clone())),
+                "cup" => CobComp::cup(q[0].clone()),
+                _ => CobComp::cap(q[0].clone()),
+            }
+        }), |c| c_info(&c));
+        s.count(&format!("struct.ck.{}", kind));
+        s.case(&req, &reply, true);
+    }
+    pub fn cc(s: &mut Sink, c: &CSpec) {
+        let reply = or_panic(guard(|| mk_c(c)), |x| {
+            if let (Some(eu), Some(nb)) = (guard(|| x.euler_num()), guard(|| x.nbdr_comps())) {
+                s.oracle(eu == 2 - 2 * (x.genus() as i32) - nb as i32, "euler_num = 2 - 2*genus - #boundary components", &c_raw(c), &eu.to_string());
+            }
+            c_info(&x)
+        });
+        if reply == "panic" { s.count("struct.cc.panic"); }
+        s.count("struct.cc");
+        s.case(&format!("cc {}", c_raw(c)), &reply, c.src.len() + c.tgt.len() >= 2);
+    }
+    pub fn cn(s: &mut Sink, c: &CSpec, d: &CSpec, valid: bool) {
+        let req = format!("cn {} {}", c_raw(c), c_raw(d));
+        let reply = match (guard(|| mk_c(c)), guard(|| mk_c(d))) {
+            (Some(a), Some(e)) => {
+                let x = guard(|| { let mut x = a.clone(); x.connect(e.clone()); x });
+                let y = guard(|| { let mut y = e.clone(); y.connect(a.clone()); y });
+                let eq = match (&x, &y) { (Some(x), Some(y)) => b(x == y).to_string(), _ => "-".into() };
+                let shared = a.endpts().intersection(&e.endpts()).count();
+                if valid {
+                    let inp = format!("CobComp {} , {}", c_raw(c), c_raw(d));
+                    match (&x, &y) {
+                        (Some(x), Some(y)) => {
+                            s.count("struct.cn.connected");
+                            s.oracle(x == y, "CobComp::connect (horizontal composition) gives the same component (Rust equality) in either argument order", &inp, &format!("{} vs {}", c_txt(x), c_txt(y)));
+                            s.oracle(x.euler_num() == a.euler_num() + e.euler_num() - shared as i32 && x.euler_num() == 2 - 2 * (x.genus() as i32) - x.nbdr_comps() as i32,
+                                "Euler characteristic of a horizontal composite: chi = chi1 + chi2 - #shared end points = 2 - 2*genus - #boundary", &inp, &c_txt(x));
+                            s.oracle(x.deg() == a.deg() + e.deg(), "deg is additive under horizontal composition of components", &inp, &format!("{} vs {} + {}", x.deg(), a.deg(), e.deg()));
+                            let mut sym: Vec<usize> = a.endpts().symmetric_difference(&e.endpts()).cloned().collect(); sym.sort();
+                            let mut got: Vec<usize> = x.endpts().into_iter().collect(); got.sort();
+                            let mut gott: Vec<usize> = x.tgt().endpts().into_iter().collect(); gott.sort();
+                            s.oracle(got == sym && gott == sym, "end points of a horizontal composite are the symmetric difference (source and target)", &inp, &c_txt(x));
+                        }
+                        (None, None) => s.count("struct.cn.rejected"),
+                        _ => s.oracle(false, "CobComp::connect (horizontal composition) gives the same component (Rust equality) in either argument order", &inp, "one order panics"),
+                    }
+                }
+                format!("conn={} a={} {} rr={} eq={}", b(a.is_connectable(&e)), shared, or_panic(x, |x| c_info(&x)), or_panic(y, |y| c_txt(&y)), eq)
+            }
+            _ => "panic".into(),
+        };
+        s.count("struct.cn");
+        s.case(&req, &reply, true);
+    }
+    fn bot_txt(bt: Bottom) -> &'static str { match bt { Bottom::Src => "S", Bottom::Tgt => "T" } }
+    fn dot_txt(d: Dot) -> &'static str { match d { Dot::None => "N", Dot::X => "X", Dot::Y => "Y" } }
+    fn disc_deg(d: Dot) -> i32 { if d == Dot::None { 1 } else { -1 } }
+    pub fn co(s: &mut Sink, c: &CSpec, bt: Bottom, i: usize, dot: Dot) {
+        let req = format!("co {} {} {} {}", c_raw(c), bot_txt(bt), i, dot_txt(dot));
+        let reply = or_panic(guard(|| { let a = mk_c(c); let mut x = a.clone(); x.cap_off(bt, i); x.add_dot(dot); (a, x) }), |(a, x)| {
+            if let (Some(d0), Some(d1)) = (guard(|| a.deg()), guard(|| x.deg())) {
+                s.oracle(d1 == d0 + disc_deg(dot), "capping off a circle with a (dotted) disc changes deg by the degree of the disc (+1 plain, -1 dotted)", &req, &format!("{} -> {}", d0, d1));
+            }
+            c_info(&x)
+        });
+        s.count("struct.co");
+        s.case(&req, &reply, true);
+    }
+    pub fn kq(s: &mut Sink, k: &KSpec, valid: bool) {
+        let req = format!("kq {}", k_raw(k));
+        let reply = or_panic(guard(|| mk_k(k)), |x| {
+            if valid {
+                // stacking with the identity cobordisms of source and target
+                let r = guard(|| {
+                    let (i0, i1) = (Cob::id(&x.src()), Cob::id(&x.tgt()));
+                    let mut a = i0.clone(); a.stack(x.clone());
+                    let mut c = x.clone(); c.stack(i1.clone());
+                    let m = x.clone() * i0;       // `top * bot`
+                    (a, c, m)
+                });
+                match r {
+                    Some((a, c, m)) => {
+                        s.oracle(a == x && c == x && m == x, "stacking with the identity cobordism (below / above, through `stack` and `*`) is the identity", &req,
+                            &format!("{} | {} | {}", k_txt(&a), k_txt(&c), k_txt(&m)));
+                        s.count("struct.kq.stack-id");
+                    }
+                    None => {
+                        let ok = guard(|| (x.euler_num(), x.src(), x.tgt())).is_some();
+                        s.oracle(!ok, "stacking with the identity cobordism does not panic on a cobordism whose boundary and Euler number are computable", &req, "panic");
+                    }
+                }
+                if x.is_invertible() {
+                    let r = guard(|| {
+                        let inv = x.inv().unwrap();
+                        let mut a = x.clone(); a.stack(inv.clone());
+                        let mut c = inv.clone(); c.stack(x.clone());
+                        (a == Cob::id(&x.src()), c == Cob::id(&x.tgt()))
+                    });
+                    s.oracle(r == Some((true, true)), "inv of an invertible cobordism is a two-sided inverse under stacking", &req, &format!("{:?}", r));
+                    s.count("struct.kq.inverse");
+                }
+            }
+            k_info(&x)
+        });
+        s.count("struct.kq");
+        s.case(&req, &reply, k.len() >= 2);
+    }
+    pub fn kc(s: &mut Sink, k: &KSpec, l: &KSpec, valid: bool) {
+        let req = format!("kc {} {}", k_raw(k), k_raw(l));
+        let reply = match (guard(|| mk_k(k)), guard(|| mk_k(l))) {
+            (Some(a), Some(e)) => {
+                let x = guard(|| a.connected(&e));
+                let y = guard(|| e.connected(&a));
+                let eq = match (&x, &y) { (Some(x), Some(y)) => b(x == y).to_string(), _ => "-".into() };
+                if valid {
+                    match (&x, &y) {
+                        (Some(x), Some(y)) => {
+                            s.count("struct.kc.connected");
+                            s.oracle(x == y, "Cob::connect (horizontal composition) gives the same cobordism (Rust equality) in either argument order", &req, &format!("{} vs {}", k_txt(x), k_txt(y)));
+                            if let Some((d, da, de)) = guard(|| (x.deg(), a.deg(), e.deg())) {
+                                s.oracle(d == da + de, "deg is additive under horizontal composition of cobordisms", &req, &format!("{} vs {} + {}", d, da, de));
+                            }
+                            if let Some((sx, sa)) = guard(|| (x.src(), a.src().connected(&e.src()))) {
+                                s.oracle(sx == sa, "the source of a horizontal composite is the connected tangle of the sources", &req, &format!("{} vs {}", t_txt(&sx), t_txt(&sa)));
+                            }
+                        }
+                        (None, None) => s.count("struct.kc.rejected"),
+                        _ => s.oracle(false, "Cob::connect (horizontal composition) gives the same cobordism (Rust equality) in either argument order", &req, "one order panics"),
+                    }
+                }
+                format!("{} rr={} eq={}", or_panic(x, |x| k_info(&x)), or_panic(y, |y| k_txt(&y)), eq)
+            }
+            _ => "panic".into(),
+        };
+        s.count("struct.kc");
+        s.case(&req, &reply, k.len() + l.len() >= 2);
+    }
+    pub fn ks(s: &mut Sink, bot: &KSpec, top: &KSpec, valid: bool) {
+        let req = format!("ks {} {}", k_raw(bot), k_raw(top));
+        let reply = match (guard(|| mk_k(bot)), guard(|| mk_k(top))) {
+            (Some(a), Some(e)) => {
+                let x = guard(|| { let mut x = a.clone(); x.stack(e.clone()); x });
+                let m = guard(|| e.clone() * a.clone());
+                let same = match (&x, &m) { (Some(x), Some(m)) => x == m, (None, None) => true, _ => false };
+                if valid {
+                    match &x {
+                        Some(x) => {
+                            s.count("struct.ks.stacked");
+                            if let Some((d, da, de)) = guard(|| (x.deg(), a.deg(), e.deg())) {
+                                s.oracle(d == da + de, "deg is additive under vertical composition (stacking) of cobordisms", &req, &format!("{} vs {} + {}", d, da, de));
+                            }
+                            if let Some((sx, sa, tx, te)) = guard(|| (x.src(), a.src(), x.tgt(), e.tgt())) {
+                                s.oracle(sx == sa && tx == te, "a stacked cobordism goes from the source of the lower to the target of the upper one", &req, &k_txt(x));
+                            }
+                        }
+                        None => s.count("struct.ks.rejected"),
+                    }
+                }
+                format!("stk={} {}{}", b(a.is_stackable(&e)), or_panic(x, |x| k_info(&x)), if same { "" } else { " mul!=stack" })
+            }
+            _ => "panic".into(),
+        };
+        s.count("struct.ks");
+        s.case(&req, &reply, bot.len() + top.len() >= 2);
+    }
+    pub fn kp(s: &mut Sink, k: &KSpec, bt: Bottom, p: &PSpec, dot: Dot) {
+        let req = format!("kp {} {} {} {}", k_raw(k), bot_txt(bt), p_raw(p), dot_txt(dot));
+        let reply = or_panic(guard(|| { let a = mk_k(k); let mut x = a.clone(); x.cap_off(bt, &mk_p(p), dot); (a, x) }), |(a, x)| {
+            if let (Some(d0), Some(d1)) = (guard(|| a.deg()), guard(|| x.deg())) {
+                s.oracle(d1 == d0 + disc_deg(dot), "Cob::cap_off changes deg by the degree of the (dotted) disc", &req, &format!("{} -> {}", d0, d1));
+            }
+            s.count("struct.kp.capped");
+            k_info(&x)
+        });
+        s.count("struct.kp");
+        s.case(&req, &reply, true);
+    }
+    pub fn ki(s: &mut Sink, t: &TSpec) {
+        let reply = or_panic(guard(|| Cob::id(&mk_t(t))), |x| k_info(&x));
+        s.count("struct.ki");
+        s.case(&format!("ki {}", t_raw(t)), &reply, t.len() >= 2);
+    }
+
+    /// a cobordism that can be stacked on `bot`: its sources partition the target components of `bot`
+    fn top_for(g: &mut Gen, r: &mut Rng, bot: &KSpec) -> KSpec {
+        let mut comps: Vec<PSpec> = bot.iter().flat_map(|c| c.tgt.iter().cloned()).collect();
+        r.shuffle(&mut comps);
+        let mut top: KSpec = vec![];
+        let mut at = 0;
+        while at < comps.len() {
+            let n = (1 + r.below(3) as usize).min(comps.len() - at);
+            let grp: Vec<PSpec> = comps[at..at + n].iter().map(|p| rerep(r, p)).collect();
+            at += n;
+            let ends: Vec<usize> = grp.iter().filter(|p| !p.closed).flat_map(|p| vec![p.edges[0], *p.edges.last().unwrap()]).collect();
+            let tgt = { let n_ = (r.below(3) / 2) as usize; g.tangle(r, &ends, n_) };
+            let gg = if r.chance(1, 4) { 1 } else { 0 };
+            let (x, y) = if r.chance(2, 3) { (0, 0) } else { (r.below(2) as usize, r.below(2) as usize) };
+            top.push(CSpec { src: grp, tgt, g: gg, x, y });
+        }
+        if r.chance(1, 4) { let c = g.circ(r); top.push(CSpec { src: vec![], tgt: vec![c], g: 0, x: 0, y: 0 }); }
+        if r.chance(1, 6) { top.push(CSpec { src: vec![], tgt: vec![], g: r.below(2) as usize, x: 0, y: 0 }); }
+        r.shuffle(&mut top);
+        top
+    }
+
+    fn a(e: &[usize]) -> PSpec { PSpec { closed: false, edges: e.to_vec() } }
+    fn c(e: &[usize]) -> PSpec { PSpec { closed: true, edges: e.to_vec() } }
+    fn cs(src: Vec<PSpec>, tgt: Vec<PSpec>, g: usize, x: usize, y: usize) -> CSpec { CSpec { src, tgt, g, x, y } }
+
+    pub fn run(s: &mut Sink, r: &mut Rng, thorough: bool) {
+        use Bottom::{Src, Tgt};
+        // ---- hand-written corpus (the unit tests of tng.rs / cob.rs / path.rs and the corners of the model)
+        for (p, q) in [(a(&[1, 2, 3, 4]), a(&[4, 5])), (a(&[1, 2, 3, 4]), a(&[5, 4])), (a(&[1, 2, 3, 4]), a(&[6, 1])), (a(&[1, 2, 3, 4]), a(&[1, 6])),
+                       (a(&[1, 2, 3, 4]), a(&[1])), (a(&[1, 2, 3, 4]), a(&[4])), (a(&[0, 1]), a(&[1, 2])), (a(&[0, 1, 2]), a(&[0, 2])), (a(&[0, 1, 2]), a(&[2, 0])),
+                       (a(&[1]), a(&[1])), (a(&[0, 0]), a(&[0, 0])), (a(&[0, 0]), a(&[0, 5])), (a(&[1, 2]), a(&[3, 4])), (a(&[1, 2]), c(&[2])), (c(&[1, 2, 3]), c(&[3, 1, 2])),
+                       (c(&[1, 2, 3, 4]), c(&[3, 2, 1, 4])), (c(&[1, 2, 3, 4]), c(&[1, 2, 4, 3])), (c(&[1, 2, 3]), a(&[1, 2, 3])), (a(&[1, 2, 3]), a(&[3, 2, 1])), (a(&[]), a(&[1])),
+                       (c(&[1, 1, 2]), c(&[1, 2, 1])), (a(&[5, 1, 2, 0, 7]), a(&[7, 9])), (c(&[4, 2, 9]), c(&[2]))] {
+            tp(s, &p, &q, false);
+        }
+        let t0 = vec![a(&[0, 1]), a(&[2, 3]), c(&[10])];
+        let t1 = vec![a(&[1, 2]), a(&[3, 4]), c(&[11])];
+        tc(s, &t0, &t1, true);
+        tc(s, &vec![], &t0, true);
+        tc(s, &t0, &vec![], true);
+        tc(s, &vec![a(&[1, 2]), a(&[1, 3])], &vec![a(&[3, 4])], false);
+        tc(s, &vec![a(&[1, 2]), a(&[3, 4])], &vec![a(&[2, 3]), a(&[4, 1])], true);
+        tn(s, &vec![a(&[2, 3]), a(&[0, 1])]);
+        tn(s, &vec![a(&[1, 3]), a(&[1, 2]), c(&[0])]);
+        tn(s, &vec![c(&[5]), a(&[7, 8]), c(&[2, 9])]);
+        tn(s, &vec![]);
+        for (t, p) in [(vec![], a(&[0, 1])), (vec![a(&[0, 1])], a(&[2, 3])), (vec![a(&[0, 1]), a(&[2, 3])], a(&[1, 2])), (vec![a(&[0, 1, 2, 3])], a(&[0, 3])),
+                       (vec![a(&[0, 1]), a(&[2, 3])], a(&[2, 3])), (vec![a(&[1, 2]), a(&[1, 3])], a(&[3, 4])), (vec![a(&[1, 2]), a(&[1, 3]), a(&[8, 9])], a(&[3, 4])),
+                       (vec![a(&[0, 1])], c(&[5])), (vec![a(&[1]), c(&[7])], a(&[1]))] {
+            ta(s, &t, &p);
+        }
+        tv(s, &t0, 0, 100); tv(s, &t0, 1, 10); tv(s, &t0, 2, 1); tv(s, &t0, 1, 15);
+        tr(s, &t0, 2); tr(s, &t0, 3); tr(s, &t0, 0);
+        ki(s, &t0); ki(s, &vec![]);
+        ck(s, "cls", &[], 0); ck(s, "cls", &[], 3);
+        ck(s, "id", &[a(&[1, 2])], 0); ck(s, "id", &[c(&[7])], 0);
+        ck(s, "sdl", &[a(&[3, 4]), a(&[5, 6]), a(&[4, 5]), a(&[6, 3])], 0);
+        ck(s, "sdl", &[a(&[3, 4]), a(&[5, 6]), a(&[4, 3]), a(&[6, 5])], 0);
+        ck(s, "sdl", &[a(&[3, 4]), c(&[5, 6]), a(&[4, 5]), a(&[6, 3])], 0);
+        ck(s, "sdl", &[a(&[3, 4]), a(&[5, 6]), a(&[4, 7]), a(&[6, 3])], 0);
+        ck(s, "mrg", &[c(&[1]), c(&[2]), c(&[3])], 0); ck(s, "mrg", &[a(&[1, 2]), a(&[3, 4]), a(&[1, 4])], 0); ck(s, "mrg", &[c(&[9]), a(&[1, 2]), a(&[1, 2])], 0);
+        ck(s, "spl", &[c(&[0]), c(&[1]), c(&[2])], 0); ck(s, "spl", &[a(&[1, 2]), a(&[1, 2]), a(&[3, 4])], 0);
+        ck(s, "cup", &[c(&[20])], 0); ck(s, "cup", &[a(&[20, 21])], 0); ck(s, "cap", &[c(&[30])], 0); ck(s, "cap", &[a(&[30, 31])], 0);
+        let big = cs(vec![a(&[1, 2]), a(&[3, 4]), c(&[10])], vec![a(&[1, 3]), a(&[2, 4]), c(&[11])], 0, 0, 0);
+        cc(s, &big);
+        cc(s, &cs(vec![a(&[1, 2])], vec![a(&[3, 4])], 0, 0, 0));
+        cc(s, &cs(vec![a(&[1, 2]), a(&[3, 4])], vec![a(&[1, 2, 3, 4])], 0, 0, 0));
+        cn(s, &big, &cs(vec![a(&[0, 1])], vec![a(&[0, 1])], 0, 0, 0), true);
+        cn(s, &big, &cs(vec![a(&[1, 3])], vec![a(&[1, 3])], 0, 0, 0), true);
+        cn(s, &big, &cs(vec![a(&[5, 6])], vec![a(&[5, 6])], 0, 0, 0), true);
+        let strips = cs(vec![a(&[1, 2]), a(&[3, 4])], vec![a(&[1, 2]), a(&[3, 4])], 0, 0, 0);
+        cn(s, &strips, &cs(vec![a(&[1, 3])], vec![a(&[1, 3])], 0, 1, 0), true);
+        cn(s, &cs(vec![a(&[2, 1, 3, 4])], vec![a(&[2, 1, 3, 4])], 1, 0, 0), &cs(vec![a(&[2, 4])], vec![a(&[2, 4])], 0, 0, 1), true);
+        // a Moebius band: a strip glued to a half-twisted strip (odd "genus" -> the parity assertion)
+        cn(s, &cs(vec![a(&[1, 2])], vec![a(&[1, 2])], 0, 0, 0), &cs(vec![a(&[1, 2])], vec![a(&[1, 2])], 0, 0, 0), true);
+        cn(s, &cs(vec![a(&[1, 2]), a(&[3, 4])], vec![a(&[1, 4]), a(&[3, 2])], 0, 0, 0), &cs(vec![a(&[1, 2]), a(&[3, 4])], vec![a(&[1, 3]), a(&[2, 4])], 0, 0, 0), true);
+        for (i, bt) in [(0, Src), (1, Src), (2, Src), (3, Src), (2, Tgt), (0, Tgt)] { for d in [Dot::None, Dot::X, Dot::Y] { co(s, &big, bt, i, d); } }
+        co(s, &cs(vec![c(&[1])], vec![], 0, 0, 0), Src, 0, Dot::X);
+        // real saddles (CobComp::sdl_from on PD crossings), re-read through the model
+        for pd in [[0usize, 1, 2, 3], [4, 2, 5, 1], [0, 0, 1, 1], [0, 1, 1, 0], [3, 7, 3, 9], [1, 2, 2, 3]] {
+            if let Some(x) = guard(|| CobComp::sdl_from(&Crossing::from_pd_code(pd))) {
+                let sp = spec_of_c(&x);
+                let direct = c_info(&x);
+                let again = or_panic(guard(|| mk_c(&sp)), |y| c_info(&y));
+                s.oracle(direct == again, "a saddle built by sdl_from is reproduced by CobComp::new on its own boundary", &format!("{:?}", pd), &format!("{} vs {}", direct, again));
+                cc(s, &sp);
+                s.count("struct.sdl_from");
+            }
+        }
+        kq(s, &vec![cs(vec![a(&[0, 1, 2, 3])], vec![a(&[0, 3]), c(&[1, 2])], 0, 0, 0), cs(vec![], vec![c(&[4])], 0, 0, 0), cs(vec![c(&[5])], vec![], 0, 0, 0)], true);
+        kq(s, &vec![cs(vec![a(&[0, 1])], vec![a(&[0, 1])], 0, 0, 0), cs(vec![c(&[2])], vec![c(&[3])], 0, 0, 0)], true);
+        kq(s, &vec![], true);
+        ks(s, &vec![cs(vec![], vec![], 0, 0, 0)], &vec![cs(vec![], vec![], 1, 0, 0)], true);
+        ks(s, &vec![cs(vec![], vec![c(&[0])], 0, 0, 0)], &vec![cs(vec![c(&[0])], vec![], 0, 0, 0)], true);
+        ks(s, &vec![cs(vec![c(&[0])], vec![], 0, 0, 0)], &vec![cs(vec![], vec![c(&[0])], 0, 0, 0)], true);
+        ks(s, &vec![cs(vec![a(&[0, 1])], vec![a(&[0, 1])], 0, 0, 0), cs(vec![], vec![c(&[2])], 0, 0, 0)], &vec![cs(vec![c(&[2])], vec![], 0, 0, 0), cs(vec![a(&[0, 1])], vec![a(&[0, 1])], 0, 0, 0)], true);
+        ks(s, &vec![cs(vec![], vec![c(&[1]), c(&[2])], 0, 0, 0)], &vec![cs(vec![c(&[1]), c(&[2])], vec![c(&[3])], 0, 0, 0)], true);
+        ks(s, &vec![cs(vec![], vec![c(&[1]), c(&[2])], 0, 0, 0)], &vec![cs(vec![c(&[1])], vec![c(&[3])], 0, 0, 0)], false);
+        ks(s, &vec![], &vec![cs(vec![], vec![c(&[3])], 0, 1, 0)], true);
+        ks(s, &vec![cs(vec![c(&[3])], vec![], 0, 1, 0)], &vec![], true);
+        kp(s, &vec![cs(vec![c(&[1])], vec![c(&[2])], 0, 0, 0)], Src, &c(&[1]), Dot::X);
+        kp(s, &vec![cs(vec![c(&[1])], vec![], 0, 0, 0)], Src, &c(&[1]), Dot::X);
+        kp(s, &vec![cs(vec![c(&[1])], vec![], 0, 0, 0)], Src, &c(&[1]), Dot::None);
+        kp(s, &vec![cs(vec![c(&[1])], vec![], 0, 0, 0)], Tgt, &c(&[1]), Dot::Y);
+        kp(s, &vec![cs(vec![a(&[1, 2])], vec![a(&[1, 2])], 0, 0, 0)], Src, &a(&[1, 2]), Dot::Y);
+        kc(s, &vec![strips.clone()], &vec![cs(vec![a(&[1, 3])], vec![a(&[1, 3])], 0, 0, 0), cs(vec![a(&[2, 4])], vec![a(&[2, 4])], 0, 0, 0)], true);
+        kc(s, &vec![], &vec![strips.clone()], true);
+
+        // ---- random streams
+        let n = if thorough { 15000 } else { 1200 };
+        for it in 0..n {
+            let mut g = Gen::new();
+            // paths: valid pairs (distinct labels, one or two shared end points) and degenerate ones
+            {
+                let pool = 6;
+                let (e0, e1) = { let v = subset(r, pool, 2); (v[0], v[1]) };
+                let p = g.arc(r, e0, e1);
+                let q = match r.below(4) {
+                    0 => g.arc(r, e0, e1),                                         // closes up
+                    1 => { let f = 10 + r.below(3) as usize; g.arc(r, e1, f) }     // one shared end
+                    2 => { let f = 10 + r.below(3) as usize; g.arc(r, f, e0) }
+                    _ => { let f = 10 + r.below(3) as usize; g.arc(r, f, f + 5) }  // not connectable
+                };
+                tp(s, &p, &q, true);
+                // degenerate: tiny label pool, repeated labels, single-edge arcs, circles
+                let rnd = |r: &mut Rng| { let n = 1 + r.below(4) as usize; PSpec { closed: r.chance(1, 4), edges: (0..n).map(|_| r.below(4) as usize).collect() } };
+                let (p, q) = (rnd(r), rnd(r));
+                tp(s, &p, &q, false);
+            }
+            // tangles
+            {
+                let e1 = { let n_ = 2 * (1 + r.below(3) as usize); subset(r, 8, n_) };
+                let e2 = { let n_ = 2 * (1 + r.below(3) as usize); subset(r, 8, n_) };
+                let t = { let n_ = r.below(2) as usize; g.tangle(r, &e1, n_) };
+                let u = { let n_ = r.below(2) as usize; g.tangle(r, &e2, n_) };
+                tc(s, &t, &u, true);
+                if it % 2 == 0 {
+                    tn(s, &t);
+                    let i = r.below(t.len() as u64 + 1) as usize;
+                    tr(s, &t, i);
+                    let mx = t.iter().flat_map(|p| p.edges.iter().cloned()).max().unwrap_or(0);
+                    match r.below(3) { 0 => tv(s, &t, 0, r.below(50) as usize), 1 => tv(s, &t, 1, mx + r.below(3) as usize), _ => tv(s, &t, 2, r.below(3) as usize) }
+                    ki(s, &t);
+                }
+                let f = subset(r, 9, 2);
+                let arc = g.arc(r, f[0], f[1]);
+                ta(s, &t, &arc);
+                // degenerate raw tangles: ties in min_edge, repeated end points (the un-adjusted index of append_arc)
+                let m = 1 + r.below(4) as usize;
+                let raw: TSpec = (0..m).map(|_| { let n = 1 + r.below(3) as usize; PSpec { closed: r.chance(1, 5), edges: (0..n).map(|_| r.below(5) as usize).collect() } }).collect();
+                let n2 = 1 + r.below(3) as usize;
+                let arc2 = PSpec { closed: r.chance(1, 8), edges: (0..n2).map(|_| r.below(5) as usize).collect() };
+                // a circle without edges only appears from [e]+[e]; keep Tng-level sorting deterministic (it is) and compare
+                tn(s, &raw);
+                ta(s, &raw, &arc2);
+                if it % 3 == 0 { let raw2: TSpec = raw.iter().rev().cloned().collect(); tc(s, &raw, &raw2, false); }
+            }
+            // components
+            {
+                let e1 = { let n_ = 2 * (1 + r.below(3) as usize); balanced(r, 8, n_) };
+                let e2 = { let mut v = { let n_ = 2 * (1 + r.below(2) as usize); balanced(r, 8, n_) }; if r.chance(3, 4) && !v.contains(&e1[0]) { v[0] = e1[0]; } v };
+                let c1 = g.comp(r, &e1);
+                let c2 = g.comp(r, &e2);
+                cn(s, &c1, &c2, true);
+                cc(s, &c1);
+                let bt = if r.bool() { Src } else { Tgt };
+                let len = if bt == Src { c1.src.len() } else { c1.tgt.len() };
+                let dot = *r.pick(&[Dot::None, Dot::X, Dot::Y]);
+                co(s, &c1, bt, r.below(len as u64 + 1) as usize, dot);
+                if it % 4 == 0 {
+                    // malformed boundary: end points of src and tgt differ (debug_assert), or arc counts differ
+                    let mut bad = c2.clone();
+                    if r.bool() { let e_ = subset(r, 9, e2.len()); bad.tgt = g.tangle(r, &e_, 0); } else if !bad.tgt.is_empty() { bad.tgt.pop(); }
+                    cc(s, &bad);
+                }
+            }
+            // cobordisms
+            {
+                let pool: Vec<usize> = (0..10).collect();
+                let nk_ = 1 + r.below(3) as usize; let k = g.cob(r, &pool, nk_, true);
+                let nl_ = 1 + r.below(3) as usize; let xl_ = r.chance(1, 3); let l = g.cob(r, &pool, nl_, xl_);
+                kc(s, &k, &l, true);
+                kq(s, &k, true);
+                let top = top_for(&mut g, r, &k);
+                ks(s, &k, &top, true);
+                if it % 5 == 0 {
+                    // not stackable: one upper component missing / foreign circle
+                    let mut bad = top.clone();
+                    if !bad.is_empty() && r.bool() { bad.pop(); } else { let c = g.circ(r); bad.push(CSpec { src: vec![c], tgt: vec![], g: 0, x: 0, y: 0 }); }
+                    ks(s, &k, &bad, false);
+                }
+                // invertible cobordisms: cylinders over arcs and circles
+                if it % 3 == 0 {
+                    let ends = { let v = balanced(r, 8, 4); vec![v[0], v[2], v[1], v[3]] };
+                    let mut inv: KSpec = vec![];
+                    for ch in ends.chunks(2) { let (s0, t0) = (g.arc(r, ch[0], ch[1]), g.arc(r, ch[0], ch[1])); inv.push(CSpec { src: vec![s0], tgt: vec![t0], g: 0, x: 0, y: 0 }); }
+                    if r.bool() { let (c0, c1) = (g.circ(r), g.circ(r)); inv.push(CSpec { src: vec![c0], tgt: vec![c1], g: 0, x: 0, y: 0 }); }
+                    kq(s, &inv, true);
+                }
+                // cap off a circle of k (or something that is not there)
+                let bt = if r.bool() { Src } else { Tgt };
+                let circs: Vec<PSpec> = k.iter().flat_map(|c| if bt == Src { c.src.clone() } else { c.tgt.clone() }).filter(|p| p.closed).collect();
+                let dot = *r.pick(&[Dot::None, Dot::X, Dot::Y]);
+                if !circs.is_empty() && r.chance(5, 6) { let p0_ = r.pick(&circs).clone(); let p = rerep(r, &p0_); kp(s, &k, bt, &p, dot); }
+                else { let p = if r.bool() { g.circ(r) } else { k.iter().flat_map(|c| c.src.clone()).next().unwrap_or(PSpec { closed: false, edges: vec![1, 2] }) }; kp(s, &k, bt, &p, dot); }
+            }
+        }
+    }
+}
+
 struct Case { name: String, link: Link }
 
 fn main() {
@@ -558,5 +1233,11 @@ fn main() {
             guarded_case(&mut s, &format!("{} reduced={}", c.name, red), |s| complexes_for(s, &mut r, &cx, thorough));
         }
     }
+
+    // (iii) structural operations (tangles, cobordisms): appended last so that the streams above keep their draws
+    let mut r3 = Rng::new(args.seed ^ 0x5712_c05b);
+    let t3 = std::time::Instant::now();
+    structural::run(&mut s, &mut r3, thorough);
+    eprintln!("c05: structural streams took {} ms", t3.elapsed().as_millis());
     s.finish();
 }
